@@ -448,7 +448,11 @@ class Master(loader.Loader):
         """Run scheduler first time and update scheduled data."""
         placement = self.cell.schedule()
 
-        for servername, server in self.cell.members().items():
+        # We run two loops, as in reschedule. First - remove all old
+        # placement, before creating any new ones, so that there are no
+        # duplicate placements if the loop is interrupted.
+        members = self.cell.members()
+        for servername, server in members.items():
             placement_node = z.path.placement(servername)
             self.backend.ensure_exists(placement_node)
 
@@ -458,6 +462,12 @@ class Master(loader.Loader):
             for app in current - correct:
                 _LOGGER.info('Unscheduling: %s - %s', servername, app)
                 self.backend.delete(os.path.join(placement_node, app))
+
+        for servername, server in members.items():
+            placement_node = z.path.placement(servername)
+            current = set(self.backend.list(placement_node))
+            correct = set(server.apps.keys())
+
             for app in correct - current:
                 _LOGGER.info('Scheduling: %s - %s,%s',
                              servername, app, self.cell.apps[app].identity)
